@@ -26,6 +26,20 @@ theorem expired_iff (d : Deadline) (now : Nat) : d.expired now = true ↔ d.ts.t
 
 namespace Signal
 
+theorem relazy_none (lz : Bool) (now : Nat) (dl : Option Deadline) : relazy lz now dl = none ↔ dl = none := by
+  cases dl <;> cases lz <;> simp [relazy]
+
+/-- a deadline after `relazy` is the old one or a freshly computed one: well-formed either way -/
+theorem relazy_some (lz : Bool) (now : Nat) (dl : Option Deadline) (d' : Deadline) (h : relazy lz now dl = some d') :
+    ∃ d, dl = some d ∧ (d' = d ∨ (d' = mkDeadline now d.ms ∧ d'.ts.toNs = d'.t0 + d'.ms * 1000000 ∧ d'.ts.valid = true)) := by
+  cases dl with
+  | none => simp [relazy] at h
+  | some d =>
+    cases lz <;> simp [relazy] at h <;> subst h
+    · exact ⟨_, rfl, Or.inl rfl⟩
+    · have := mkDeadline_ok now d.ms
+      exact ⟨_, rfl, Or.inr ⟨rfl, by omega, this.2.1⟩⟩
+
 def holds : Pc → Bool
   | .setBcast | .setUnlock | .resetUnlock | .wUnlock _ _ | .wEnter _ => true
   | _ => false
@@ -41,7 +55,7 @@ structure Inv (s : St) : Prop where
   /-- the setter reaches its broadcast with the flag it has just stored (it still holds the mutex) -/
   bcastTrue : ∀ t, s.pc t = .setBcast → s.flag = true
 
-theorem inv_init (set : Bool) (now spur : Nat) : Inv (init set now spur) := by
+theorem inv_init (set : Bool) (now spur : Nat) (sk lz : Bool := false) : Inv (init set now spur sk lz) := by
   constructor <;> simp [init, holds]
 
 theorem inv_step {s s' : St} {t : Tid} {a : Act Op} (h : Inv s) (hs : step s t a = some s') : Inv s' := by
@@ -66,6 +80,7 @@ theorem inv_step {s s' : St} {t : Tid} {a : Act Op} (h : Inv s) (hs : step s t a
 theorem inv_reach {set : Bool} {now spur : Nat} {s : St} (h : Reach set now spur s) : Inv s := by
   induction h with
   | init => exact inv_init _ _ _
+  | initP sk lz => exact inv_init _ _ _ sk lz
   | step _ hs ih => exact inv_step ih hs
 
 /-! ### history: which flag value a returning wait has seen; deadlines -/
@@ -96,7 +111,7 @@ structure HInv (set0 : Bool) (s : St) : Prop where
   relockTO : ∀ t dl, s.pc t = .wRelock dl true → dl ≠ none ∧ ∀ d, dl = some d → d.ts.toNs ≤ s.now
   unlockF : ∀ t dl, s.pc t = .wUnlock false dl → dl ≠ none ∧ ∀ d, dl = some d → d.ts.toNs ≤ s.now
 
-theorem hinv_init (set : Bool) (now spur : Nat) : HInv set (init set now spur) := by
+theorem hinv_init (set : Bool) (now spur : Nat) (sk lz : Bool := false) : HInv set (init set now spur sk lz) := by
   constructor <;> simp [init, lastWrite, Good, Pc.dl]
 
 theorem hinv_step {set0 : Bool} {s s' : St} {t : Tid} {a : Act Op} (hi : Inv s) (h : HInv set0 s)
@@ -122,11 +137,12 @@ theorem hinv_step {set0 : Bool} {s s' : St} {t : Tid} {a : Act Op} (hi : Inv s) 
     all_goals
       try simp only [loopHead, goto, done] at hs
       (repeat' split at hs) <;> simp at hs <;> (try subst hs) <;>
-        (refine ⟨?_, ?_, ?_, ?_, ?_⟩ <;> intros <;> grind [upd, Pc.dl, lastWrite, Good, expired_iff])
+        (refine ⟨?_, ?_, ?_, ?_, ?_⟩ <;> intros <;> grind [upd, Pc.dl, lastWrite, Good, expired_iff, relazy_some, relazy_none])
 
 theorem hinv_reach {set : Bool} {now spur : Nat} {s : St} (h : Reach set now spur s) : HInv set s := by
   induction h with
   | init => exact hinv_init _ _ _
+  | initP sk lz => exact hinv_init _ _ _ sk lz
   | step hr hs ih => exact hinv_step (inv_reach hr) ih hs
 
 end Signal
